@@ -473,7 +473,7 @@ UNITS = {
             _lazy("contracts.shorten_block", "unit_header", "C13"), _lazy("contracts.shorten_block", "unit_word_get", "C13")],
     "C11": [unit_read_signal("C11", "dispatch"), unit_read_signal("C11", "wds"), unit_read_signal("C11", "infer"), unit_readers("C11"),
             _lazy("contracts.sphere_header", "unit_parse", "C11"), _lazy("contracts.readers_audio", "unit_readers_audio", "C11")],
-    "C16": [unit_std("C16", "accumulate_vector"), unit_std("C16", "apply_vector"), unit_std("C16", "have_stats"), unit_std_tensor("C16"), unit_std_apply_tensor("C16")],
+    "C16": [unit_std("C16", "accumulate_vector"), unit_std("C16", "apply_vector"), unit_std("C16", "have_stats"), unit_std_tensor("C16"), unit_std_apply_tensor("C16"), _lazy("contracts.standardize", "unit_dispatch", "C16")],
     "C17": [unit_std("C17", "accumulate_vector"), _lazy("contracts.standardize", "unit_sanitize_accepts_saved", "C17"), unit_readers("C17"),
             _lazy("contracts.standardize_save", "unit_save", "C17")],
     "C08": [unit_alias_arg("C08"), _lazy("contracts.alias", "unit_from_alias", "C08")],
